@@ -304,7 +304,7 @@ class Minimize(Contract):
         return dict(np=np_module(empty=np_empty, argmin=np_argmin), scipy=scipy)
 
     def requires(self, s):
-        r = [s.n >= 1, s.dim >= 1, ('bounds are well-formed', z3.ForAll([z3.Int('jb')], LO(z3.Int('jb')) <= HI(z3.Int('jb'))))]
+        r = [s.n >= 1, s.dim >= 1, ('bounds are well-formed', forall_range(0, s.dim, lambda j: LO(j) <= HI(j), 'j'))]
         if self.mode == 'prior-1d':
             r.append(s.dim == 1)
         return r
@@ -409,7 +409,7 @@ class _AcqContract(Contract):
         return s
 
     def requires(self, s):
-        return [s.n >= 1, s.dim >= 1, ('bounds are well-formed', z3.ForAll([z3.Int('jb')], LO(z3.Int('jb')) < HI(z3.Int('jb'))))]
+        return [s.n >= 1, s.dim >= 1, ('bounds are well-formed and non-degenerate', forall_range(0, s.dim, lambda j: LO(j) < HI(j), 'j'))]
 
     def points_post(self, s, result):
         if not (isinstance(result, SArr) and result.ndim == 2):
@@ -669,8 +669,8 @@ class RandMaxVarAcquire(_AcqContract):
                 2: Loop(inv=self._inv_theta, modifies=lambda s, l: [l.theta_init])}
 
     def raises(self, s):
-        return {'ValueError': ('more points requested than the chain keeps after warm-up', s.n > s.ns - s.wu)[1],
-                'SystemExit': z3.BoolVal(True)}
+        return {'ValueError': s.n > s.ns - s.wu,          # more points requested than the chain keeps after warm-up
+                'SystemExit': z3.BoolVal(True)}          # "Unable to find a suitable initial point" after limit_faulty_init attempts
 
     def ensures(self, s, result):
         if not (isinstance(result, SArr) and result.ndim == 2):
